@@ -21,7 +21,7 @@ Require Import VParse SpecParse SpecSound SpecContains.
 Require Import VComplete VTop VTop2.
 Require Import ReqModel ReqSpec ReqScanP ReqTokP ReqListP ReqMarkP ReqParseP ReqSetP ReqTopP ReqEqP ReqSoundP ReqRoundP ReqPep440P ReqRoundFullP.
 Require Import MkLayoutP MkLexP SetsModel Sorted.
-Require Import ReqCanonP ReqSetsLinkP ReqClauseP ReqStrFormP ReqGrammarP ReqExactP ReqMarkerEqP.
+Require Import ReqCanonP ReqSetsLinkP ReqClauseP ReqStrFormP ReqGrammarP ReqExactP ReqMarkerEqP ReqExtraP ReqGrammarXP.
 Require MkEval.
 Open Scope N_scope.
 
@@ -177,7 +177,10 @@ Print Assumptions C08_str_roundtrip_every.
 
 (* 2'. the decomposition theorem on the GRAMMARS: the marker text is generated by the marker grammar (RList of C07, any blank layout),
        every clause text by the PEP 440 surface grammar (rq_pep440_clause: VTop.wf_spelling under an operator that admits the form,
-       a prefix match, or "===" text) - no parser appears in the hypotheses *)
+       a prefix match, or NON-EMPTY "===" text) - no parser appears in the hypotheses.  This statement still carries the sufficient
+       D7 condition rq_no_d7; the version under the exact condition is C08_requirement_render_pep508_exact below (theorem 13).
+       A "===" clause with an empty text ("a===": accepted by the code and the model) is outside theorems 1, 2, 2', 13 - rq_wf_clause
+       demands a non-empty text - and is covered by 7' and 12 only. *)
 Theorem C08_requirement_render_pep508 sp m : rq_wf_g sp m -> rq_lits_ok m ->
   Requirement (rq_render sp) =
   RqOk {| q_name := rs_name sp; q_extras := rq_sp_extras sp; q_specs := map rq_clause_spec (rq_sp_clauses sp);
@@ -212,10 +215,17 @@ Print Assumptions C08_specset_rejects_alike.
 Theorem C08_ckey_is_specifier_eq a b : sp_eqb a b = true <-> rq_ckey a = rq_ckey b.
 Proof. exact (ckey_sp_eqb a b). Qed.
 Print Assumptions C08_ckey_is_specifier_eq.
+(* (rq_sset l is BY DEFINITION SpecifierSet_of (map mk_member l) None; the content is that SpecifierSet(text) builds it.  The text is the
+   clause text of this very source: C08_requirement_holds_SpecifierSet_of_source below) *)
 Theorem C08_requirement_holds_SpecifierSet src r : Requirement src = RqOk r ->
   exists t, SpecifierSet t None = Some (rq_sset (q_specs r)) /\ set_str (rq_sset (q_specs r)) = rq_set_str (q_specs r).
 Proof. exact (Requirement_SpecifierSet src r). Qed.
 Print Assumptions C08_requirement_holds_SpecifierSet.
+Theorem C08_requirement_holds_SpecifierSet_of_source src r : Requirement src = RqOk r ->
+  exists p, rq_parse src = Some p /\ SpecifierSet (pr_spec p) None = Some (rq_sset (q_specs r)) /\
+            q_name r = pr_name p /\ q_extras r = pr_extras p.
+Proof. exact (Requirement_SpecifierSet_src src r). Qed.
+Print Assumptions C08_requirement_holds_SpecifierSet_of_source.
 (* equal requirements hold equal specifier sets, which contain / filter / report prereleases alike *)
 Theorem C08_equal_requirements_sets_alike sa sb a b : Requirement sa = RqOk a -> Requirement sb = RqOk b -> req_eq a b = true ->
   let A := rq_sset (q_specs a) in let B := rq_sset (q_specs b) in
@@ -242,6 +252,12 @@ Theorem C08_url_marker_needs_ws_any sp x : rq_wf sp None -> rq_is_url sp -> rs_w
   Some {| pr_name := rs_name sp; pr_url := rq_sp_url sp ++ 59 :: x; pr_extras := rq_sp_extras sp; pr_spec := []; pr_marker := None |}.
 Proof. exact (url_marker_needs_ws_any sp x). Qed.
 Print Assumptions C08_url_marker_needs_ws_any.
+(* (the statement above is theorem 1 instantiated with the URL u ++ ";" ++ x, on rq_parse; the same on Requirement:) *)
+Theorem C08_url_marker_needs_ws_requirement sp x : rq_wf sp None -> rq_is_url sp -> rs_w3 sp = [] -> forallb rq_not_blank x = true ->
+  Requirement (rq_render sp ++ 59 :: x) =
+  RqOk {| q_name := rs_name sp; q_extras := rq_sp_extras sp; q_specs := []; q_url := Some (rq_sp_url sp ++ 59 :: x); q_marker := None |}.
+Proof. exact (url_marker_needs_ws_req sp x). Qed.
+Print Assumptions C08_url_marker_needs_ws_requirement.
 (* ... and when a blank follows inside the would-be marker ("a @ u; os_name=='a'") the requirement is rejected *)
 Theorem C08_url_marker_blank_inside_rejected sp wu u x1 w c y : rq_wf_head sp -> rq_blank wu = true -> u <> [] -> forallb rq_not_blank u = true ->
   forallb rq_not_blank x1 = true -> w <> [] -> rq_blank w = true -> is_wsb c = false -> c <> 59 -> (c = 10 -> y <> []) ->
@@ -250,7 +266,10 @@ Proof. exact (url_marker_blank_inside_rejected sp wu u x1 w c y). Qed.
 Print Assumptions C08_url_marker_blank_inside_rejected.
 
 (* 11'. the form of str(r): name, "[" extras "]" strictly sorted (code-point order, no duplicates, exactly the set of extras), the
-        clause strings strictly sorted (one string per distinct clause: the first one supplied, cf. D33), "@ url", "; marker" *)
+        clause strings strictly sorted, each the string of a clause of r, every clause of r represented by the string of a clause with
+        the same canonical key, "@ url", "; marker".  (The first conjunct is the definition of req_str unfolded; the sortedness conjuncts
+        are facts about insertion sort on duplicate-free lists.)  WHICH clause of a group of equal clauses is printed - the first one
+        supplied, cf. D33 - is C08_str_prints_first_supplied below. *)
 Theorem C08_str_form src r : Requirement src = RqOk r ->
   req_str r = q_name r ++ rq_extras_text (rq_extras_sorted r) ++ rq_join [44] (rq_canon_clauses r) ++ rq_url_text r ++ rq_marker_text r /\
   StronglySorted str_lt (rq_extras_sorted r) /\ (forall e, In e (rq_extras_sorted r) <-> In e (q_extras r)) /\
@@ -259,6 +278,10 @@ Theorem C08_str_form src r : Requirement src = RqOk r ->
   (forall sp, In sp (q_specs r) -> exists sp', In sp' (q_specs r) /\ rq_ckey sp' = rq_ckey sp /\ In (spec_str sp') (rq_canon_clauses r)).
 Proof. exact (str_form_sorted src r). Qed.
 Print Assumptions C08_str_form.
+Theorem C08_str_prints_first_supplied r s : In s (rq_canon_clauses r) ->
+  exists l1 sp l2, q_specs r = l1 ++ sp :: l2 /\ s = spec_str sp /\ ~ In (rq_ckey sp) (map rq_ckey l1).
+Proof. exact (clauses_first_supplied r s). Qed.
+Print Assumptions C08_str_prints_first_supplied.
 Theorem C08_extras_sorted r :
   StronglySorted (fun a b => Py.str_cmp a b = Lt) (rq_extras_sorted r) /\ NoDup (rq_extras_sorted r) /\ forall e, In e (rq_extras_sorted r) <-> In e (q_extras r).
 Proof. exact (extras_sorted_strict r). Qed.
@@ -284,14 +307,36 @@ Print Assumptions C08_requirement_render_exact.
 Theorem C08_old_condition_implies_exact items : rq_no_d7 items -> rq_d7_ok items.
 Proof. exact (no_d7_chain_ok items). Qed.
 Print Assumptions C08_old_condition_implies_exact.
-(* ... and otherwise it is REJECTED, on the whole class (every other hypothesis of the decomposition theorem in place) *)
+(* ... the same on the grammars: rq_wf_gx = the grammar-level hypotheses of 2' with rq_d7_ok in place of rq_no_d7 (no p_body, no
+   parse_marker in the hypotheses) *)
+Theorem C08_requirement_render_pep508_exact sp m : rq_wf_gx sp m -> rq_lits_ok m ->
+  Requirement (rq_render sp) =
+  RqOk {| q_name := rs_name sp; q_extras := rq_sp_extras sp; q_specs := map rq_clause_spec (rq_sp_clauses sp);
+          q_url := rq_opt_url (rq_sp_url sp); q_marker := option_map norm_l m |}.
+Proof. exact (Requirement_render_pep508_x sp m). Qed.
+Print Assumptions C08_requirement_render_pep508_exact.
+(* ... and otherwise it is REJECTED, on the whole class: name, extras, blanks and clauses as in the decomposition theorem, the chain
+   condition false - whatever the marker text is (rq_wf_d7 puts no condition on it) *)
 Theorem C08_D7_rejected sp : rq_wf_d7 sp -> Requirement (rq_render sp) = RqInvalid.
 Proof. exact (d7_rejected sp). Qed.
 Print Assumptions C08_D7_rejected.
 
+(* 9'. the decision procedure behind the observation r.eqh ("the hashes are equal" in the model) is equality of the keys, so in the
+       model the two letters of r.eqh always agree *)
+Theorem C08_key_eqb_is_eq x y : rq_key_eqb x y = true <-> x = y.
+Proof. exact (key_eqb_eq x y). Qed.
+Print Assumptions C08_key_eqb_is_eq.
+Theorem C08_eq_is_key_eqb a b : req_eq a b = rq_key_eqb (req_key a) (req_key b).
+Proof. exact (req_eq_key_eqb a b). Qed.
+Print Assumptions C08_eq_is_key_eqb.
+
 (* closed boolean non-vacuity checks of the new theorems (each evaluates model functions on concrete inputs) *)
-Example C08_round5_checks : nogap_check = true /\ link_check = true /\ cir_check = true /\ sf_check = true /\ gr_check = true /\ x_check = true.
+Example C08_round5_checks : nogap_check = true /\ link_check = true /\ cir_check = true /\ sf_check = true /\ gr_check = true /\ x_check = true /\
+  extra_check = true /\ gx_check = true /\ meq_check = true.
 Proof. repeat split; vm_compute; reflexivity. Qed.
+(* Prop-level witnesses that really instantiate the hypotheses: ReqGrammarP.gr_sp_wf (rq_wf_g), ReqGrammarXP.gx_sp_wf (rq_wf_gx, inside the
+   D7 class), ReqGrammarXP.x_items1_wf_x (rq_wf_x where rq_no_d7 fails), ReqGrammarXP.x_items2_wf_d7 (rq_wf_d7), ReqMarkerEqP.meq_hyps (two
+   equal requirements that both carry a marker) *)
 
 (* ---- non-vacuity ---- *)
 Definition T (s : list N) := s.
